@@ -366,6 +366,11 @@ QUIET static int new_node(void)
 		return 0;
 	id = ++nalloc;
 	name_node(id);
+	/* the content of a node before it is added is arbitrary (recycled or uninitialised memory): make every link field
+	 * point at the poison object, so that an add that publishes the node without setting one of them is seen by the
+	 * traversal oracles */
+	items[id].list.next = items[id].list.prev = &poison.list;
+	items[id].hn.next = items[id].hn.prev = &poison.hn;
 	return id;
 }
 
